@@ -51,7 +51,8 @@ def Coll.scan (c : Coll) (l : Loaded) (m : Matcher) (op : Op) (pos : Nat) (probe
         match o.field pos with
         | .v x => Coll.scan c l m op pos probe us (if Val.eval m op x probe then acc ++ [(x, oid)] else acc)
         | .opaque _ => (c, acc, some .keyType)
-    | (c, _) => (c, acc, none)        -- a failed read ends the scan silently (shadowed `err`)
+    | (c, .err e) => (c, acc, some e)   -- an object that cannot be read makes the search fail
+    | (c, .panic) => (c, acc, some .other)
 
 /-- `DB.search(o, field, operator, value, constrain)` -/
 def Coll.search (E : Env) (c : Coll) (field : String) (op : Option Op) (probe : Leaf)
